@@ -131,17 +131,23 @@ class BatchBase(futures.FutureBase):
         self._try_switch_active_batch()
         error = self.error()
         cancelled = error is not None
-        if cancelled:
-            self._cancel()
-        for item in self.items:
-            if not item.is_computed():
-                # We must ensure all batch items are computed
-                item.set_error(
-                    error
-                    if cancelled
-                    else AssertionError("Value of this item wasn't set on batch flush.")
-                )
-        futures.FutureBase._computed(self)  # Cython doesn't support super(...)
+        try:
+            if cancelled:
+                self._cancel()
+        finally:
+            # Even if the _cancel() hook raises, the items must be answered and the subscribers
+            # notified: the batch is computed, so nothing else will ever do it.
+            for item in self.items:
+                if not item.is_computed():
+                    # We must ensure all batch items are computed
+                    item.set_error(
+                        error
+                        if cancelled
+                        else AssertionError(
+                            "Value of this item wasn't set on batch flush."
+                        )
+                    )
+            futures.FutureBase._computed(self)  # Cython doesn't support super(...)
 
     def _flush(self):
         """A protected method that must be overridden to implement batch flush.
